@@ -370,6 +370,35 @@ pub fn run(ctx: &mut Ctx) -> (&'static str, String, bool) {
     }
     ctx.sample(json!({"mode": "compressed", "buffer": "00030000", "expectation": "size byte 0 announces an impossible length: framing error, no panic, nothing (or >= 4 bytes) removed"}));
     ctx.sample(json!({"mode": "uncompressed", "buffer": "0840000000090000", "expectation": "IS_CIM with sub-mode 9: packet or decode error after removing exactly 8 bytes"}));
+    // ---- IS_MSO: the one packet in which a field (TextStart) is an offset into another (Msg). Every offset, also
+    //      beyond the text, against message ends that an offset can tear: markers, lone carets, double-byte pairs -------
+    {
+        let mut p = Part::new();
+        let mut r = base_rng.fork(1111);
+        let bodies: Vec<Vec<u8>> = {
+            let heads: [&[u8]; 4] = [b"", b"ab", b"Name ^1: ", "^CØìÿ: ".as_bytes()];
+            let tails: [&[u8]; 14] = [b"", b"x", b"^", b"^L", b"^E", b"^J", b"^8", b"^^", b"^J\x81\x7e", b"^J\x83\xbf", b"^J\x81", b"^C\xe6", b"\xe9", b"^S\x80^"];
+            heads.iter().flat_map(|h| tails.iter().map(move |t| [&h[..], &t[..]].concat())).collect()
+        };
+        for body in &bodies {
+            for compressed in MODES {
+                let mut msg = body.clone();
+                while (8 + msg.len()) % 4 != 0 {
+                    msg.push(0);
+                }
+                for ts in 0..=(body.len() + 3).min(255) {
+                    for usertype in [0u8, 1, 2] {
+                        let mut f = vec![0u8, 11, 0, 0, 1, 2, usertype, ts as u8];
+                        f.extend_from_slice(&msg);
+                        f[0] = if compressed { (f.len() / 4) as u8 } else { f.len() as u8 };
+                        check_buffer(&f, compressed, "mso-textstart", &mut p, &mut r);
+                        p.distinct_extra += 1;
+                    }
+                }
+            }
+        }
+        ctx.merge(p);
+    }
     // ---- the same hostile bytes arriving over a connection, in fragments: Framed::read must stay total too --------
     {
         use crate::transport::{runtime, Conn, Handle, Impl, RAct, ReadResult};
@@ -497,7 +526,7 @@ pub fn run(ctx: &mut Ctx) -> (&'static str, String, bool) {
     ctx.assume("uncompressed announced lengths >= 4 that are not a multiple of 4 may be treated as a frame of that length or refused as a framing error: the statement does not choose");
     (
         "exploration",
-        "every (size,type) header pair x buffer lengths around the announced length x both modes; valid frames of every kind (reference-built and encoder-built) with every byte position set to every value, every truncation, extensions, bit flips, repeated elements (blocks of 4-40 bytes copied over their neighbours) and multi-byte text snippets (UTF-8, double-byte, markers) written over every offset; random and plausible-header random buffers; each decoded twice with different trailing bytes; hostile streams (impossible size bytes, garbage, cut frames) read through both connection types in 1-5 byte fragments under the panic monitor; distinct = distinct (mode, buffer)".into(),
+        "every (size,type) header pair x buffer lengths around the announced length x both modes; valid frames of every kind (reference-built and encoder-built) with every byte position set to every value, every truncation, extensions, bit flips, repeated elements (blocks of 4-40 bytes copied over their neighbours) and multi-byte text snippets (UTF-8, double-byte, markers) written over every offset; random and plausible-header random buffers; each decoded twice with different trailing bytes; IS_MSO with every TextStart against message ends an offset can tear; hostile streams (impossible size bytes, garbage, cut frames) read through both connection types in 1-5 byte fragments under the panic monitor; distinct = distinct (mode, buffer)".into(),
         false,
     )
 }
